@@ -81,7 +81,14 @@ def decode(j):
         return np.array([decode(x) for x in j["v"]])
     if t == "dictv":
         return {k: decode(x) for k, x in j["v"].items()}
+    if t == "npbool":
+        return np.bool_(j["v"])
     raise ValueError(t)
+
+
+def decode_flag(e):
+    """the `enabled` flag of a model as the configuration / the constructor hands it over: a bool, or any other value"""
+    return decode(e) if isinstance(e, dict) else e
 
 
 # ------------------------------------------------------------------------------------------ guards
@@ -212,7 +219,7 @@ def make_processor(p):
     for g, models in p["pipe"].items():
         kw[g] = [ModelFunction(func=m["func"], name=m["name"],
                                arguments={k: decode(v) for k, v in m.get("arguments", {}).items()},
-                               enabled=m.get("enabled", True)) for m in models]
+                               enabled=decode_flag(m.get("enabled", True))) for m in models]
     return Processor(detector=make_detector(p["det"]), pipeline=DetectionPipeline(**kw))
 
 
@@ -283,12 +290,25 @@ def do_validate(p):
     from pyxel.observation import Observation, ParameterValues
 
     proc = make_processor(p)
+    # the flag (or anything else) may have arrived by an assignment through a key before the sweep is set up
+    pre_refused = 0
+    for key, value, path in p.get("pre", []):
+        try:
+            if path == "override":
+                from pyxel.run import apply_overrides
+                apply_overrides(overrides={key: decode(value)}, processor=proc, mode=None)
+            else:
+                proc.set(key, decode(value))
+        except Exception:  # noqa: BLE001 - a refused assignment is simply not part of the history (the key may be misspelt)
+            pre_refused += 1
     keep = set()
     for k in p["keys"]:
         keep |= set(k.split("."))
         keep.add("enabled")
     before = tree_of(proc, keep)
-    steps = [ParameterValues(key=k, values=[1, 2], enabled=en) for k, en in zip(p["keys"], p["step_enabled"])]
+    values = p.get("values") or [[{"t": "int", "v": "1"}, {"t": "int", "v": "2"}] for _ in p["keys"]]
+    steps = [ParameterValues(key=k, values=[decode(x) for x in vs], enabled=en)
+             for k, vs, en in zip(p["keys"], values, p["step_enabled"])]
     obs = Observation(parameters=steps, readout=Readout(times=[1.0]), mode=p.get("mode", "product"))
     res = None
     try:
@@ -305,7 +325,33 @@ def do_validate(p):
             ran = {"ok": len(vp.CALLS)}
         except Exception as ex:  # noqa: BLE001
             ran = {"raise": exn_name(ex), "calls": len(vp.CALLS)}
-    return {"before": before, "validate": res, "ran": ran}
+    seen = None
+    if p.get("run"):
+        seen = [sweep_effect(vp.CALLS, k) for k in p["keys"]]
+    return {"before": before, "validate": res, "ran": ran, "seen": seen, "pre_refused": pre_refused}
+
+
+def sweep_effect(calls, key: str):
+    """[how often the model addressed by `pipeline.<group>.<model>...` was executed, the values that arrived in the
+    argument addressed by `...arguments.<a>[.<item>...]`] — from the log of the tagged probe models"""
+    parts = key.split(".")
+    if len(parts) < 3 or parts[0] != "pipeline":
+        return [0, []]
+    tag = parts[1] + "__" + parts[2]
+    mine = [c[1] for c in calls if isinstance(c, list) and len(c) == 2 and c[0] == tag and isinstance(c[1], dict)]
+    vals = []
+    if len(parts) >= 5 and parts[3] == "arguments":
+        for kw in mine:
+            v = kw
+            for q in parts[4:]:
+                if isinstance(v, dict) and q in v:
+                    v = v[q]
+                else:
+                    v = None
+                    break
+            else:
+                vals.append(canon(v) if not isinstance(v, dict) else {"t": "opaque", "v": "dict"})
+    return [len(mine), vals]
 
 
 # ------------------------------------------------------------------------------------------ derived processors
